@@ -70,20 +70,32 @@ theorem chgRel_modEnt_prio (e : Nat) (v : Int) (st : St) : ChgRel e st (st.modEn
     · rfl
   exact ⟨by simp, fun s => by simp, fun s => by simp, fun i s => by rw [hs], fun i _ => ⟨fun s => by rw [hs], by simp⟩⟩
 
+/-- the state after the `changed` branch of `updated` -/
+def chgHook (st : St) (e : Nat) (s : Sd) (v : Chg) : St :=
+  if ((v.truthy && truthyS (st.side e s).oid) || ((st.side e s.other).changed.truthy && truthyS (st.side e s.other).oid)) = true then
+    st.csAdd e
+  else if ((st.side e s.other).changed.truthy && !truthyS (st.side e s.other).oid) = true then
+    (st.csDiscard e).modSide e s.other (fun x => { x with changed := .num 0 })
+  else st.csDiscard e
+
+theorem changedRule_eq (s : Sd) (e : Nat) (v : Chg) (st : St) : changedRule s e v st = (.ok (), chgHook st e s v) := by
+  simp only [changedRule, chgHook, M.bind_apply, getSt_apply, M.ite_apply, modifySt_apply]
+  split
+  · rfl
+  · split <;> rfl
+
 theorem sideSetBody_changed_eq (setF : SetF) (cfg : Cfg) (e : Nat) (s : Sd) (v : Chg) (st : St) :
     sideSetBody setF cfg e s (.changed v) st =
-      if ((v.truthy && truthyS (st.side e s).oid) || ((st.side e s.other).changed.truthy && truthyS (st.side e s.other).oid)) = true then
-        (.ok (), ((st.csAdd e).dirtyAdd e).modSide e s (fun x => { x with changed := v }))
-      else
-        match whenM ((st.side e s.other).changed.truthy && !truthyS (st.side e s.other).oid) (setF e s.other (.changed (.num 0))) (st.csDiscard e) with
-        | (.error x, s2) => (.error x, s2)
-        | (.ok _, s2) => (.ok (), (s2.dirtyAdd e).modSide e s (fun x => { x with changed := v })) := by
-  simp only [sideSetBody, updatedSide, changedRule, M.bind_apply, getSt_apply, M.ite_apply, modifySt_apply]
-  by_cases hc : ((v.truthy && truthyS (st.side e s).oid) || ((st.side e s.other).changed.truthy && truthyS (st.side e s.other).oid)) = true
-  · simp only [hc, if_true]
-  · simp only [hc, Bool.false_eq_true, if_false]
-    cases whenM ((st.side e s.other).changed.truthy && !truthyS (st.side e s.other).oid) (setF e s.other (.changed (.num 0))) (st.csDiscard e) with
-    | mk r s2 => cases r <;> rfl
+      (.ok (), ((chgHook st e s v).dirtyAdd e).modSide e s (fun x => { x with changed := v })) := by
+  simp only [sideSetBody, updatedSide, M.bind_apply, changedRule_eq, modifySt_apply]
+
+theorem chgRel_chgHook (st : St) (e : Nat) (s : Sd) (v : Chg) : ChgRel e st (chgHook st e s v) := by
+  unfold chgHook
+  split
+  · exact chgRel_csAdd e st
+  · split
+    · exact (chgRel_csDiscard e st).trans (chgRel_setChanged e s.other _ _)
+    · exact chgRel_csDiscard e st
 
 /-- everything `ent[side].changed = v` does stays within `ChgRel`, whatever the outcome -/
 theorem chg_rel (cfg : Cfg) : ∀ (n : Nat) (e : Nat) (s : Sd) (v : Chg) (st : St), ChgRel e st (sideSet cfg n e s (.changed v) st).2
@@ -91,23 +103,47 @@ theorem chg_rel (cfg : Cfg) : ∀ (n : Nat) (e : Nat) (s : Sd) (v : Chg) (st : S
   | n + 1, e, s, v, st => by
     show ChgRel e st (sideSetBody (sideSet cfg n) cfg e s (.changed v) st).2
     rw [sideSetBody_changed_eq]
-    split
-    · exact ((chgRel_csAdd e st).trans (chgRel_dirtyAdd e e _)).trans (chgRel_setChanged e s v _)
-    · have hw : ChgRel e (st.csDiscard e) (whenM ((st.side e s.other).changed.truthy && !truthyS (st.side e s.other).oid)
-          (sideSet cfg n e s.other (.changed (.num 0))) (st.csDiscard e)).2 := by
-        unfold whenM; split
-        · exact chg_rel cfg n e s.other _ _
-        · exact ChgRel.refl _ _
-      cases hr : whenM ((st.side e s.other).changed.truthy && !truthyS (st.side e s.other).oid)
-          (sideSet cfg n e s.other (.changed (.num 0))) (st.csDiscard e) with
-      | mk r s2 =>
-        rw [hr] at hw
-        cases r with
-        | error x => exact (chgRel_csDiscard e st).trans hw
-        | ok u => exact (((chgRel_csDiscard e st).trans hw).trans (chgRel_dirtyAdd e e _)).trans (chgRel_setChanged e s v _)
+    exact ((chgRel_chgHook st e s v).trans (chgRel_dirtyAdd e e _)).trans (chgRel_setChanged e s v _)
 
-/-- `ent[side].changed = v` raises nothing but fuel exhaustion; on a normal return the field is set and the
-    pending-set clause holds for the entry -/
+/-- the pending-set clause for the entry after the hook and the field write -/
+theorem pendE_chg (st : St) (e : Nat) (s : Sd) (v : Chg) (hlt : e < st.ents.length) :
+    PendE e (((chgHook st e s v).dirtyAdd e).modSide e s (fun x => { x with changed := v })) := by
+  have hne : ¬ (s.other = s) := by cases s <;> simp [Sd.other]
+  have hne2 : ¬ (s = s.other) := by cases s <;> simp [Sd.other]
+  unfold chgHook
+  by_cases hc : ((v.truthy && truthyS (st.side e s).oid) || ((st.side e s.other).changed.truthy && truthyS (st.side e s.other).oid)) = true
+  · simp only [hc, if_true]
+    intro _; simp
+  · simp only [hc, Bool.false_eq_true, if_false]
+    simp only [Bool.or_eq_true, Bool.and_eq_true, not_or, not_and] at hc
+    by_cases hw : ((st.side e s.other).changed.truthy && !truthyS (st.side e s.other).oid) = true
+    · simp only [hw, if_true]
+      rintro ⟨s', h1, h2⟩
+      exfalso
+      rcases Sd.eq_or_other s s' with hs | hs
+      · subst hs
+        st_norm at h1 h2
+        simp only [hlt, and_true, and_self, if_true, hne, hne2, false_and, if_false] at h1 h2
+        exact absurd h2 (by simpa using hc.1 h1)
+      · subst hs
+        st_norm at h1 h2
+        simp only [hlt, and_true, hne, false_and, if_false, and_self, if_true] at h1 h2
+        simp [Chg.truthy] at h1
+    · simp only [hw, Bool.false_eq_true, if_false]
+      rintro ⟨s', h1, h2⟩
+      exfalso
+      rcases Sd.eq_or_other s s' with hs | hs
+      · subst hs
+        st_norm at h1 h2
+        simp only [hlt, and_true, and_self, if_true] at h1 h2
+        exact absurd h2 (by simpa using hc.1 h1)
+      · subst hs
+        st_norm at h1 h2
+        simp only [hlt, and_true, hne, false_and, if_false] at h1 h2
+        exact absurd h2 (by simpa using hc.2 h1)
+
+/-- `ent[side].changed = v` raises nothing but fuel exhaustion (and needs one level only); on a normal return the field
+    is set and the pending-set clause holds for the entry -/
 theorem chg_ok (cfg : Cfg) : ∀ (n : Nat) (e : Nat) (s : Sd) (v : Chg) (st : St), e < st.ents.length →
     (sideSet cfg n e s (.changed v) st).1 = .error .recursion ∨
     ((sideSet cfg n e s (.changed v) st).1 = .ok () ∧ PendE e (sideSet cfg n e s (.changed v) st).2 ∧
@@ -117,57 +153,17 @@ theorem chg_ok (cfg : Cfg) : ∀ (n : Nat) (e : Nat) (s : Sd) (v : Chg) (st : St
     show (sideSetBody (sideSet cfg n) cfg e s (.changed v) st).1 = _ ∨ ((sideSetBody (sideSet cfg n) cfg e s (.changed v) st).1 = _ ∧
       PendE e (sideSetBody (sideSet cfg n) cfg e s (.changed v) st).2 ∧ ((sideSetBody (sideSet cfg n) cfg e s (.changed v) st).2.side e s).changed = v)
     rw [sideSetBody_changed_eq]
-    split
-    · right
-      refine ⟨by first | rfl | trivial, fun _ => by simp, ?_⟩
-      rw [side_modSide]; simp [hlt]
-    · next hc =>
-      simp only [Bool.or_eq_true, Bool.and_eq_true, not_or, not_and] at hc
-      by_cases hw : ((st.side e s.other).changed.truthy && !truthyS (st.side e s.other).oid) = true
-      · simp only [hw, whenM, if_true]
-        have hlt' : e < (st.csDiscard e).ents.length := hlt
-        rcases chg_ok cfg n e s.other (.num 0) (st.csDiscard e) hlt' with hrec | ⟨hok, _, hset⟩
-        · left
-          cases hr : sideSet cfg n e s.other (.changed (.num 0)) (st.csDiscard e) with
-          | mk r s2 => rw [hr] at hrec; simp only at hrec; subst hrec; rfl
-        · right
-          have hrel := chg_rel cfg n e s.other (.num 0) (st.csDiscard e)
-          cases hr : sideSet cfg n e s.other (.changed (.num 0)) (st.csDiscard e) with
-          | mk r s2 =>
-            rw [hr] at hok hset hrel; simp only at hok hset hrel; subst hok
-            have hlen : e < s2.ents.length := by rw [hrel.len]; exact hlt
-            refine ⟨by first | rfl | trivial, ?_, by rw [side_modSide]; simp [hlen]⟩
-            rintro ⟨s', h1, h2⟩
-            exfalso
-            rw [side_modSide] at h1 h2
-            simp only [ents_dirtyAdd, side_dirtyAdd, hlen, and_true] at h1 h2
-            have ho := (hrel.field e s).1
-            simp only [side_csDiscard] at ho
-            rcases Sd.eq_or_other s s' with hs | hs
-            · subst hs
-              simp only [and_self, if_true] at h1 h2
-              rw [ho] at h2
-              exact absurd h2 (by simpa using hc.1 h1)
-            · subst hs
-              have hne : ¬ (s.other = s) := by cases s <;> simp [Sd.other]
-              simp only [hne, and_false, if_false] at h1 h2
-              rw [hset] at h1
-              simp [Chg.truthy] at h1
-      · simp only [hw, whenM, Bool.false_eq_true, if_false, M.pure_apply]
-        right
-        refine ⟨by first | rfl | trivial, ?_, by rw [side_modSide]; simp [hlt]⟩
-        rintro ⟨s', h1, h2⟩
-        exfalso
-        rw [side_modSide] at h1 h2
-        simp only [ents_dirtyAdd, ents_csDiscard, side_dirtyAdd, side_csDiscard, hlt, and_true] at h1 h2
-        rcases Sd.eq_or_other s s' with hs | hs
-        · subst hs
-          simp only [and_self, if_true] at h1 h2
-          exact absurd h2 (by simpa using hc.1 h1)
-        · subst hs
-          have hne : ¬ (s.other = s) := by cases s <;> simp [Sd.other]
-          simp only [hne, and_false, if_false] at h1 h2
-          exact absurd h2 (by simpa using hc.2 h1)
+    right
+    refine ⟨by first | rfl | trivial, pendE_chg st e s v hlt, ?_⟩
+    have hl : e < (chgHook st e s v).ents.length := by
+      rw [(chgRel_chgHook st e s v).len]; exact hlt
+    rw [side_modSide]; simp [hl]
+
+/-- one level of fuel is enough for `ent[side].changed = v` (fix B removed the recursion) -/
+theorem chg_total (cfg : Cfg) (n : Nat) (e : Nat) (s : Sd) (v : Chg) (st : St) :
+    (sideSet cfg (n + 1) e s (.changed v) st).1 = .ok () := by
+  show (sideSetBody (sideSet cfg n) cfg e s (.changed v) st).1 = _
+  rw [sideSetBody_changed_eq]
 
 /-! ### the same facts as Hoare triples -/
 
